@@ -45,6 +45,18 @@ CHECKS = {
         design_ref="DESIGN.md section 4, C03",
         note=TB_B,
     ),
+    "C13": dict(
+        category="model_checking",
+        technique="dynamic symbolic execution of the real Consumer with z3 from a catalogue of reachable states: stop()/shutdown() followed by every order of the outstanding completions (symbolic schedule), symbolic offsets",
+        text="Bounded symbolic model checking of stop()/shutdown() on the real Consumer. Eleven reachable states (resolving offsets, fetching, "
+             "reply parked, processing sync/async incl. from inside the processor, waiting to retry, manual/automatic commit in flight, commit "
+             "in back-off, idle) are built by concrete prefixes; then stop() or shutdown() is called and every ordering of the outstanding "
+             "completions (fetch reply/error, processor ok/fail, each commit outcome, timers) up to the suffix bound is explored, followed by a "
+             "restart. Monitors: nothing runs after stop returns (processor, requests, delayed calls), start()/shutdown() Deferreds fire exactly "
+             "once with the right value, graceful shutdown ends committed == processed, a stopped consumer restarts and delivers.",
+        design_ref="DESIGN.md section 4, C13",
+        note=TB_B + " Results of start()/shutdown() are compared with last_processed_offset as of the moment the Deferred fires.",
+    ),
 }
 
 NOT_YET = "check not built yet in this session; see DESIGN.md section 4 for the planned solver-based harness"
